@@ -896,6 +896,139 @@ func genGeneric(tier string) []*gcase {
 			add("R", true, nil, stmts)
 		}
 	}
+	// seeded random VALID histories: a walk on a concrete catalogue (two schemas with tables and columns, a third
+	// schema absent), so that every case is judged by the oracle
+	nWalk := 1200
+	if tier == "thorough" {
+		nWalk = 20000
+	}
+	for i := 0; i < nWalk; i++ {
+		type wt struct{ cols []string }
+		cat := map[string]map[string]*wt{
+			"s1": {"t": {cols: []string{"a", "b"}}, "u": {cols: []string{"a"}}},
+			"s2": {"t": {cols: []string{"a", "g"}}},
+		}
+		names := []string{"s1", "s2", "s3"}
+		tnames := []string{"t", "u", "v"}
+		cnames := []string{"a", "b", "c", "g"}
+		mkT := func(sn, tn string) gtab {
+			sn2 := sn
+			g := gtab{schema: &sn2, name: tn}
+			if w := cat[sn][tn]; w != nil {
+				for _, c := range w.cols {
+					col := gcol{name: c}
+					if c == "g" {
+						col.gen = &v
+					}
+					g.cols = append(g.cols, col)
+				}
+			}
+			return g
+		}
+		has := func(l []string, x string) bool {
+			for _, y := range l {
+				if y == x {
+					return true
+				}
+			}
+			return false
+		}
+		var stmts [][]gch
+		for n := 2 + r.Intn(6); n > 0; n-- {
+			sn := rng.Pick(r, names)
+			tn := rng.Pick(r, tnames)
+			cn := rng.Pick(r, cnames)
+			sc := cat[sn]
+			switch k := r.Intn(12); {
+			case k == 0:
+				if sc == nil {
+					cat[sn] = map[string]*wt{}
+					stmts = append(stmts, []gch{{k: "+s", s: gsch{sn, 0}}})
+				}
+			case k == 1:
+				if sc != nil {
+					var chs []gch
+					if r.Bool() { // PostgreSQL style: the tables first
+						for _, x := range tnames {
+							if sc[x] != nil {
+								chs = append(chs, gch{k: "-t", t: mkT(sn, x)})
+								delete(sc, x)
+							}
+						}
+					}
+					chs = append(chs, gch{k: "-s", s: gsch{sn, len(sc)}})
+					delete(cat, sn)
+					stmts = append(stmts, chs)
+				}
+			case k < 4:
+				if sc != nil && sc[tn] == nil {
+					w := &wt{cols: []string{"a"}}
+					if r.Bool() {
+						w.cols = append(w.cols, cn)
+						if cn == "a" {
+							w.cols = w.cols[:1]
+						}
+					}
+					sc[tn] = w
+					stmts = append(stmts, []gch{{k: "+t", t: mkT(sn, tn)}})
+				}
+			case k < 6:
+				if sc != nil && sc[tn] != nil {
+					g := mkT(sn, tn)
+					delete(sc, tn)
+					stmts = append(stmts, []gch{{k: "-t", t: g}})
+				}
+			case k < 8:
+				if sc != nil && sc[tn] != nil && !has(sc[tn].cols, cn) {
+					g := mkT(sn, tn)
+					sc[tn].cols = append(sc[tn].cols, cn)
+					col := gcol{name: cn}
+					if cn == "g" {
+						col.gen = &v
+					}
+					stmts = append(stmts, []gch{{k: "~t", t: g, cs: []gtch{{k: "+c", c: col}}}})
+				}
+			case k < 10:
+				if sc != nil && sc[tn] != nil && len(sc[tn].cols) > 1 {
+					g := mkT(sn, tn)
+					var cs []gtch
+					for q := 1 + r.Intn(2); q > 0 && len(sc[tn].cols) > 1; q-- {
+						j := r.Intn(len(sc[tn].cols))
+						c := sc[tn].cols[j]
+						sc[tn].cols = append(append([]string{}, sc[tn].cols[:j]...), sc[tn].cols[j+1:]...)
+						col := gcol{name: c}
+						if c == "g" {
+							col.gen = &v
+						}
+						cs = append(cs, gtch{k: "-c", c: col})
+					}
+					stmts = append(stmts, []gch{{k: "~t", t: g, cs: cs}})
+				}
+			case k == 10:
+				to := rng.Pick(r, tnames)
+				if sc != nil && sc[tn] != nil && sc[to] == nil {
+					g1 := mkT(sn, tn)
+					sc[to] = sc[tn]
+					delete(sc, tn)
+					stmts = append(stmts, []gch{{k: "rt", t: g1, t2: mkT(sn, to)}})
+				}
+			default:
+				to := rng.Pick(r, cnames)
+				if sc != nil && sc[tn] != nil && has(sc[tn].cols, cn) && !has(sc[tn].cols, to) && cn != "g" && to != "g" {
+					g := mkT(sn, tn)
+					for j, c := range sc[tn].cols {
+						if c == cn {
+							sc[tn].cols[j] = to
+						}
+					}
+					stmts = append(stmts, []gch{{k: "~t", t: g, cs: []gtch{{k: "rc", c: gcol{name: cn}, c2: gcol{name: to}}}}})
+				}
+			}
+		}
+		if len(stmts) > 0 {
+			add("W", true, nil, stmts)
+		}
+	}
 	return cases
 }
 
